@@ -51,6 +51,7 @@ type Conn struct {
 	nWrites   int
 	ReadBytes int
 	// deadlines are recorded, not enforced (the model has no clock): a harness can assert that none is left armed
+	WriteClock    []int64 // virtual-clock instant of every Write on this end
 	ReadDeadline  time.Time
 	WriteDeadline time.Time
 }
@@ -127,6 +128,7 @@ func (c *Conn) Write(p []byte) (int, error) {
 	cp := make([]byte, len(p))
 	copy(cp, p)
 	c.Writes = append(c.Writes, cp)
+	c.WriteClock = append(c.WriteClock, vapi.Clock())
 	if c.Message {
 		h.msgs = append(h.msgs, cp)
 	} else {
